@@ -707,7 +707,7 @@ def run(res, args):
         small = lambda fs: sorted(fs, key=os.path.getsize)
         pw = pick_docs(random.Random(res.seed + 1), 10, os.path.join(common.VERIF, 'corpus', 'wbxml', '*.wbxml'))
         px = pick_docs(random.Random(res.seed + 2), 10, os.path.join(common.VERIF, 'corpus', 'xml', '*.xml'))
-        tasks += [(d, f, o, 'pairs', 400000, 0, 0) for d, fs in (('w2x', small(pw)), ('x2w', small(px))) for f in fs for o in (0, 3)]
+        tasks += [(d, f, o, 'pairs', 200000, 0, 0) for d, fs in (('w2x', small(pw)), ('x2w', small(px))) for f in fs for o in (0, 3)]
     tasks = replay_tasks + tasks
     t0 = time.time()
     with ThreadPoolExecutor(common.NCPU) as ex:
@@ -767,6 +767,10 @@ def run(res, args):
             matched.add(k['id'])
             continue
         name = re.sub(r'[^A-Za-z0-9]+', '-', '%s-%s' % (sym, site))[:120].strip('-')
+        if len(res.violations) >= 12:
+            # a defect in a low-level function shows at every call chain: list the rest in the evidence only
+            res.coverage.setdefault('further_new_sites', []).append('%s @ %s (%s %s optset %d k=%d)' % (sym, site, e['direction'], e['document'], e['optset'], e['k1']))
+            continue
         e = dict(e)
         e.update({'kind': 'oom-conversion', 'explain': 'the conversion violates the property when the request(s) at `site` fail',
                   'replay_cmd': 'harness oom conv %s %s %d %s 0 %d %d' % (e['direction'], e['document'], e['optset'], 'pairs' if e['k2'] else 'single', e['k1'], e['k1'])})
